@@ -84,6 +84,7 @@ def write_cfg(path, sl, emit, invariants):
     body = ("CONSTANTS\n  Names = %s\n  Stages = %s\n  RepChoices = %s\n  AggChoices = %s\n  Spellings = %s\n  Paths = %s\n"
             "  Methods = %s\n  ArgStyles = %s\n  DocOrders = {\"fwd\"}\n  MaxComps = %d\n  MaxRefs = %d\n  FixedNames = TRUE\n"
             "  Emit = FALSE\n  PrivChoices = {0}\n  AggVarChoices = {FALSE}\n  StageVals0 = {0}\n  StageVals1 = {2}\n  MaxSame = 1\n"
+            "  Platforms = {0}\n  PlatGlobalVals = {0}\n  PlatStageVals0 = {0}\n  PlatStageVals1 = {0}\n"
             "  FaultKinds = %s\n  EmitV = %s\n  TypeSitesC = %s\n  TypeClassesC = %s\nINIT InitV\nNEXT NextV\n%sCHECK_DEADLOCK FALSE\n" % (
                 _set(sl["names"]), _set(sl["stages"]), _set(sl["reps"]), _set(sl["aggs"]), _set(sl["spell"]), _set(sl["paths"]),
                 _set(sl["methods"]), _set(sl["styles"]), sl["comps"], sl["refs"], _set(sl["faults"]),
